@@ -171,6 +171,12 @@ pub enum Naming {
     /// bit i of the mask (group i+1) named `(?<gi>…)`, the others unnamed; references numbered
     /// (only valid when the pattern has no references)
     Mask(u32),
+    /// unnamed groups; backreferences relative: `\k<-n>`; conditions numbered
+    Relative,
+    /// unnamed groups; backreferences as numeric names `\k<N>`
+    NumericName,
+    /// group i is `(?<gi>…)`; references use `\k'gi'`
+    Quote,
 }
 
 pub struct Printer {
@@ -212,15 +218,30 @@ impl Printer {
             Naming::Python => {
                 let _ = write!(self.out, "(?P=g{})", g);
             }
+            Naming::Relative => {
+                // -1 is the group opened most recently
+                let n = self.next_group as i64 - g as i64 + 1;
+                if n >= 1 {
+                    let _ = write!(self.out, "\\k<-{}>", n);
+                } else {
+                    let _ = write!(self.out, "\\{}", g);
+                }
+            }
+            Naming::NumericName => {
+                let _ = write!(self.out, "\\k<{}>", g);
+            }
+            Naming::Quote => {
+                let _ = write!(self.out, "\\k'g{}'", g);
+            }
         }
     }
 
     fn cond_ref(&mut self, g: u8) {
         match self.naming {
-            Naming::Numbered | Naming::Mask(_) => {
+            Naming::Numbered | Naming::Mask(_) | Naming::Relative | Naming::NumericName => {
                 let _ = write!(self.out, "(?({})", g);
             }
-            Naming::Angle => {
+            Naming::Angle | Naming::Quote => {
                 let _ = write!(self.out, "(?(<g{}>)", g);
             }
             Naming::Python => {
@@ -291,8 +312,8 @@ impl Printer {
                 self.next_group += 1;
                 let g = self.next_group;
                 match self.naming {
-                    Naming::Numbered => self.out.push('('),
-                    Naming::Angle => {
+                    Naming::Numbered | Naming::Relative | Naming::NumericName => self.out.push('('),
+                    Naming::Angle | Naming::Quote => {
                         let _ = write!(self.out, "(?<g{}>", g);
                     }
                     Naming::Python => {
